@@ -758,7 +758,7 @@ fn update_contiguous_length(
     let end = bitfield_update.start + bitfield_update.length;
     let mut c = header.hints.contiguous_length;
     if bitfield_update.drop {
-        if c <= end && c > bitfield_update.start {
+        if c > bitfield_update.start {
             c = bitfield_update.start;
         }
     } else if c <= end && c >= bitfield_update.start {
